@@ -92,3 +92,15 @@ Theorem C16_update_mode_passes : forall st n1 n2 t1 t2 entry,
   = Done (if bytes_eqb t1 t2 then st else set_updates st (assoc_set (s_updates st) entry t1)).
 Proof. exact update_mode_passes. Qed.
 Print Assumptions C16_update_mode_passes.
+
+(* the unrestricted re-run fix-point does not hold of the model (one entry compared with two
+   different outputs); the restricted one is covered by the differential run *)
+Theorem C16_rerun_fixpoint_unrestricted_refuted : ~ rerun_fixpoint_unrestricted_statement.
+Proof. exact rerun_fixpoint_unrestricted_refuted. Qed.
+Print Assumptions C16_rerun_fixpoint_unrestricted_refuted.
+
+(* the "changes nothing" half of the re-run: without UpdateScripts the file is never written *)
+Theorem C16_no_flag_no_write : forall cfg work env file,
+  c_update cfg = false -> f_change (run_file_full cfg work env file) = Untouched.
+Proof. exact no_flag_no_write. Qed.
+Print Assumptions C16_no_flag_no_write.
